@@ -359,9 +359,13 @@ def lit_isla(s, quote="u"):
 NUMERAL_RE = '(re.++ (re.opt (re.union (str.to_re "+") (str.to_re "-"))) (re.+ (re.range "0" "9")))'
 
 
-def to_smt(t, vals=None, oracle=False):
+def to_smt(t, vals=None, oracle=False, plain_at=None, _cnt=None):
     """Standard SMT-LIB text.  vals: substitute variables by literals.  oracle: negative literals as (- n),
-    str.to.int rewritten to the sign-aware reading on [+-]?[0-9]+ (expressed in Z3 itself)."""
+    str.to.int rewritten to the sign-aware reading on [+-]?[0-9]+ (expressed in Z3 itself).  plain_at: set of
+    str.to.int occurrence numbers (order of printing) that keep Z3's plain reading even in oracle mode -- used only
+    to recognise the open finding 'two readings of str.to.int on signed numerals coexist'."""
+    if _cnt is None:
+        _cnt = [0]
     h = t[0]
     if h == "S":
         return lit_smt(t[1])
@@ -374,7 +378,7 @@ def to_smt(t, vals=None, oracle=False):
         return str(n)
     if h == "B":
         return "true" if t[1] else "false"
-    rec = lambda x: to_smt(x, vals, oracle)
+    rec = lambda x: to_smt(x, vals, oracle, plain_at, _cnt)
     if h == "re.loop":
         if t[4] == "idx":
             return "((_ re.loop %d %d) %s)" % (t[2], t[3], rec(t[1]))
@@ -382,8 +386,10 @@ def to_smt(t, vals=None, oracle=False):
     if h == "neg":
         return "(- %s)" % rec(t[1])
     if h == "str.to.int":
+        me = _cnt[0]
+        _cnt[0] += 1
         a = rec(t[1])
-        if not oracle:
+        if not oracle or (plain_at is not None and me in plain_at):
             return "(str.to_int %s)" % a
         rest = "(str.to_int (str.substr %s 1 (str.len %s)))" % (a, a)
         return '(ite (str.prefixof "-" %s) (- %s) (ite (str.prefixof "+" %s) %s (str.to_int %s)))' % (a, rest, a, rest, a)
@@ -505,6 +511,31 @@ def oracle_verdict(term, vals, timeout_ms=10000):
     # such terms are decided by simplify or not at all
     hard = any(s[0] in ("str.replace_re", "str.replace_re_all") for s in subterms(term))
     return decide(z3_parse_bool(to_smt(term, vals, oracle=True)), timeout_ms, solver=not hard)
+
+
+def signed_occurrences(term, vals):
+    """occurrence numbers (as counted by to_smt) of the str.to.int applications whose argument starts with a sign:
+    the ones on which Z3's plain reading (-1) and ISLa's documented sign-aware reading differ"""
+    import z3
+    out = []
+    cnt = [0]
+
+    def walk(t):
+        if t[0] == "str.to.int":
+            me = cnt[0]
+            cnt[0] += 1
+            try:
+                a = to_smt(t[1], vals, oracle=True)
+                e = z3_parse_bool('(or (str.prefixof "-" %s) (str.prefixof "+" %s))' % (a, a))
+                if z3.is_true(z3.simplify(e)):
+                    out.append(me)
+            except Exception:
+                pass
+        for x in args_of(t):
+            walk(x)
+
+    walk(term)
+    return out
 
 
 def in_domain(term, vals):
